@@ -77,6 +77,36 @@ Definition full_ok (f : frame) : bool :=
   end.
 Example c10_full_eval : forallb full_ok (map (gcase gen_frame 1) [0;1;2;3;4;5;6;7;8;9;10;11;12;13;14;15]) = true.
 Proof. vm_compute. reflexivity. Qed.
-(* PARTIAL: the statement "for every capture length k, every field of parse (firstn k (encode_frame f))
-   equals the field of the full parse or is unset" is not proved as one theorem over whole frames; the
-   layer theorems above give it per layer, and the check sweeps every cut of every generated frame. *)
+
+(* THE PROPERTY for captures cut short: frame_chain f (Proofs/FrameP.v) is the list of the frame's headers in
+   order, each with its parser, its encoded bytes and the columns it sets.  A capture that ends c bytes
+   into header j, 1 <= c < that header's minimal length (14 Ethernet, 4 802.1Q / MPLS / GRE, 20 IPv4 / TCP,
+   40 IPv6, 8 UDP / IPv6 extension headers, 2 ICMP), is dissected EXACTLY like the first j headers alone:
+   the message m agrees (Inv) with the base message b and the layer list ls that the first j layers
+   produce -- their fields, one stack entry and one size each, and nothing from header j or beyond. *)
+Theorem c10_truncated : forall f j c, wf_frame f = true -> (j < length (frame_chain f))%nat ->
+  (1 <= c < min_len (lp (nth j (frame_chain f) dummy_layer)))%nat ->
+  exists m e b ls,
+    run_layers false empty_msg [] (firstn j (frame_chain f)) = Some (e, b, ls) /\
+    parse_packet empty_pcfg empty_msg
+      (firstn (length (concat (map lhdr (firstn j (frame_chain f)))) + c) (encode_frame f)) = Ok m /\ Inv m b ls.
+Proof. exact parse_prefix. Qed.
+Print Assumptions c10_truncated.
+
+(* frame_chain is the frame: its headers, concatenated, are the frame's bytes *)
+Theorem c10_chain_is_frame : forall f, encode_frame f = concat (map lhdr (frame_chain f)) ++ frame_rest f.
+Proof. exact encode_frame_chain. Qed.
+
+(* non-vacuity of the truncation theorem: generated frame 3 has more than three headers; cut 2 bytes into
+   its fourth header the dissector reports three layers *)
+Example c10_truncated_nonvacuous :
+  let f := gcase gen_frame 1 3 in
+  wf_frame f = true /\ (3 <? lenN (frame_chain f)) = true /\
+  (2 <? N.of_nat (min_len (lp (nth 3 (frame_chain f) dummy_layer)))) = true /\
+  match parse_packet empty_pcfg empty_msg (firstn (length (concat (map lhdr (firstn 3 (frame_chain f)))) + 2) (encode_frame f)) with
+  | Ok m => lenN (mgetLI m cLayerStack) =? 3 | _ => false end = true.
+Proof. vm_compute. repeat split. Qed.
+
+(* PARTIAL (what is left): cuts inside the variable part of an MPLS stack or an SRv6 segment list beyond the
+   header's minimal length, and cuts exactly at a header boundary behind an MPLS stack (the dissector then
+   cannot see the IP version nibble), are covered by the check's exhaustive cut sweep, not by a theorem. *)
